@@ -20,6 +20,11 @@ try:
     vlog = open(f"/tmp/seed/verify-batch.log").read()
 except Exception:
     pass
+# keep Go sources (demo programs, go.mod) out of the /verif module's package tree
+for root, _, files in os.walk(dst):
+    for f in files:
+        if f.endswith(".go") or f in ("go.mod", "go.sum"):
+            os.rename(os.path.join(root, f), os.path.join(root, f + ".txt"))
 meta = {
     "property": m.get("property", sid),
     "breaks": m.get("summary"),
